@@ -312,3 +312,207 @@ def c17(ck):
                "levels across and beyond its range (one child process per case); seeded metadata strings; "
                "non-trivial = distinct arguments that must be / were rejected with an error")
     ck.finish()
+
+
+# ------------------------------------------------------------------------------------ Pkg-based checks
+def _first(events, pred, what):
+    e = next((e for e in events if pred(e)), None)
+    if e is None:
+        raise ToolError(f"no event suitable for the {what} canary")
+    return copy.deepcopy(e)
+
+
+def pkg_canaries(events):
+    """Corrupted copies of recorded observations, one per clause of ObservePackage."""
+    out = []
+    acc = lambda e: e["event"] == "Pkg" and e.get("accepted")
+    c = _first(events, acc, "C01")
+    c["diff"] = c["diff"] + [[50, 1]]              # a lead byte came out different
+    out.append(("C01:", c))
+    c = _first(events, acc, "C16")
+    c["off"]["hdr"] += 8
+    out.append(("C16:", c))
+    c = _first(events, lambda e: acc(e) and "off_mem" in e, "C16 (in-memory offsets)") if any("off_mem" in e for e in events) else None
+    if c:
+        c["off_mem"]["payload"] -= 16
+        out.append(("C16:", c))
+    if any(acc(e) and e.get("gets") for e in events):
+        c = _first(events, lambda e: acc(e) and e.get("gets") and any(g["acc"] == "get_name" and "ok" in g["res"] for g in e["gets"]), "C05")
+        for g in c["gets"]:
+            if g["acc"] == "get_name":
+                g["res"]["ok"] = g["res"]["ok"] + [120]
+        out.append(("C05:get_name", c))
+    if any(acc(e) and e.get("emitted") for e in events):
+        c = _first(events, lambda e: acc(e) and e.get("emitted"), "C09")
+        # give the second index entry of the main header the illegal data type 0
+        h = c["off"]["hdr"]
+        p = h + 16 + 16 + 4 + 3
+        c["input"][p] = 0
+        out.append(("C09:", c))
+        if any("dig" in e for e in events):
+            c = _first(events, lambda e: acc(e) and e.get("emitted") and "dig" in e, "C08")
+            c["dig"]["payload_alt"]["calc"] = "0" * 64
+            out.append(("C08:", c))
+    return out
+
+
+def run_pkg(ck, binary, hargs, own, gen_cfg=None, shards=14, timeout=3000, tag="pkg"):
+    """Run the `pkg` scenario, validate with Trace_Pkg; rejects labelled with one of the `own`
+    prefixes are violations of this check, `Panic` events are C04's concern (counted only)."""
+    args = list(hargs)
+    if gen_cfg:
+        cases = ck.scratch / f"{tag}_cases.ndjson"
+        r = vlib.gen_cases("Gen_Hdr", gen_cfg, ck.scratch, cases)
+        ck.add_tlc(r)
+        args += ["--cases", cases]
+    tr = ck.scratch / f"{tag}.ndjson"
+    vlib.run_harness(binary, ["pkg", "--out", tr, "--seed", ck.seed, "--tier", ck.tier] + args, timeout=timeout)
+    events = read_ndjson(tr)
+    panics = [e for e in events if e["event"] == "Panic"]
+    events = [e for e in events if e["event"] != "Panic"]
+    by_id = {e["id"]: e for e in events}
+    nid = max(by_id) + 1
+    canaries = {}
+    for label, c in pkg_canaries(events):
+        if not any(label.startswith(o) or o.startswith(label[:4]) for o in own):
+            continue
+        c["id"] = nid
+        canaries[nid] = label
+        nid += 1
+        events.insert(0, c)
+    write_ndjson(tr, events)
+    v = vlib.validate_trace("Trace_Pkg", "Trace_Pkg.cfg", ck.scratch, tr, shards=shards, timeout=timeout)
+    ck.add_validation(v)
+    rejected = {r["id"]: r for r in v["rejects"]}
+    for cid, label in canaries.items():
+        r = rejected.get(cid)
+        if r is None or not any(w.startswith(label[:4]) for w in r["why"]):
+            raise ToolError(f"canary for {label} was accepted by Trace_Pkg - binding not effective ({r})")
+    ck.canaries += len(canaries)
+    other = {}
+    for r in v["rejects"]:
+        if r["id"] in canaries:
+            continue
+        ev = by_id.get(r["id"])
+        for w in r["why"]:
+            if any(w.startswith(o) for o in own):
+                small = dict(ev)
+                if len(small.get("input", [])) > 600:
+                    small["input"] = small["input"][:600] + ["..."]
+                small.pop("gets", None)
+                ck.violation(f"{w}:{ev.get('origin')}", w, small)
+            else:
+                other[w[:3]] = other.get(w[:3], 0) + 1
+    if other:
+        log(f"  rejects belonging to other properties (reported by their own checks): {other}")
+    real = [e for e in events if e["id"] not in canaries]
+    ck.extra.setdefault("panics_seen_belonging_to_C04", 0)
+    ck.extra["panics_seen_belonging_to_C04"] += len(panics)
+    return real
+
+
+def origin_kind(e):
+    return str(e.get("origin", "")).split(":")[0]
+
+
+def pkg_stats(ck, events):
+    kinds = {}
+    for e in events:
+        k = origin_kind(e) + (":accepted" if e.get("accepted") else ":rejected")
+        kinds[k] = kinds.get(k, 0) + 1
+    ck.extra["observations"] = kinds
+    return kinds
+
+
+TRACE_MODULE.update({"C01": "Trace_Pkg", "C16": "Trace_Pkg", "C09": "Trace_Pkg", "C05": "Trace_Pkg"})
+
+
+@prop("C01")
+def c01(ck):
+    binary = vlib.build_harness()
+    thorough = ck.tier == "thorough"
+    events = run_pkg(ck, binary, ["--families", "assets,built,mutants,gen", "--n", 60 if thorough else 15,
+                                  "--mutants", 20000 if thorough else 1500, "--gets", "0",
+                                  "--maxbytes", 400000 if thorough else 65536],
+                     own=("C01:",), gen_cfg="Gen_Hdr_thorough.cfg" if thorough else "Gen_Hdr_quick.cfg")
+    k = pkg_stats(ck, events)
+    acc = [e for e in events if e.get("accepted")]
+    ck.evaluations = len(events)
+    ck.nontrivial = len({(origin_kind(e), e["input_len"], len(e["diff"]), tuple(e["input"][96:128])) for e in acc})
+    for e in acc[:1] + [e for e in acc if e["diff"]][:2]:
+        ck.samples.append({"origin": e["origin"], "input_len": e["input_len"], "diff": e["diff"], "off": e["off"]})
+    ck.rule = ("every byte string handed to Package::parse: repository assets, packages built / signed / cleared by "
+               "the library, seeded structure-aware mutants of small packages, and hand-encoded packages enumerated "
+               "by TLC from the format model (layout grid, raw entries with hostile fields, intro / lead / padding "
+               "variants); non-trivial = distinct accepted inputs (by origin family, length, written difference and "
+               "signature intro)")
+    ck.assumptions.append("written bytes are compared with the input by the harness byte-wise (diff positions); where "
+                          "the difference may lie is computed by the specification from the input's intro fields")
+    ck.finish()
+
+
+@prop("C16")
+def c16(ck):
+    binary = vlib.build_harness()
+    thorough = ck.tier == "thorough"
+    ck.add_tlc(vlib.mc("MC_Layout", "MC_Layout.cfg", ck.scratch, workers=4))
+    events = run_pkg(ck, binary, ["--families", "assets,built,gen,mutants", "--n", 90 if thorough else 24,
+                                  "--mutants", 5000 if thorough else 600, "--gets", "0",
+                                  "--maxbytes", 400000 if thorough else 65536],
+                     own=("C16:",), gen_cfg="Gen_Hdr_thorough.cfg" if thorough else "Gen_Hdr_quick.cfg")
+    pkg_stats(ck, events)
+    acc = [e for e in events if e.get("accepted")]
+    ck.evaluations = len(acc) + sum(1 for e in acc if "off_mem" in e)
+    ck.nontrivial = len({(e["off"]["hdr"], e["off"]["payload"] - e["off"]["hdr"]) for e in acc})
+    ck.extra["sig_store_residues_mod_8"] = sorted({(e["off"]["hdr"] - 96) % 8 for e in acc})
+    for e in acc[:2] + [e for e in acc if "off_mem" in e][:2]:
+        ck.samples.append({"origin": e["origin"], "off": e["off"], "off_mem": e.get("off_mem"), "input_len": e["input_len"], "content_len": e["content_len"]})
+    ck.rule = ("offsets reported by parsed packages and by in-memory packages (built, signed, cleared, after the public "
+               "Header::clear) against the layout the specification derives from the written bytes' intro fields; "
+               "non-trivial = distinct (header offset, header length) pairs")
+    ck.finish()
+
+
+@prop("C05")
+def c05(ck):
+    binary = vlib.build_harness()
+    thorough = ck.tier == "thorough"
+    events = run_pkg(ck, binary, ["--families", "assets,built,gen", "--n", 60 if thorough else 15, "--gets", "1",
+                                  "--maxbytes", 400000 if thorough else 20000],
+                     own=("C05:",), gen_cfg="Gen_Hdr_thorough.cfg" if thorough else "Gen_Hdr_quick.cfg")
+    pkg_stats(ck, events)
+    with_gets = [e for e in events if e.get("gets")]
+    ck.evaluations = sum(len(e["gets"]) for e in with_gets)
+    ck.nontrivial = len({(g["acc"], g.get("tag"), json.dumps(g["res"])[:200]) for e in with_gets for g in e["gets"]})
+    ck.extra["accessor_outcomes"] = {"ok": sum(1 for e in with_gets for g in e["gets"] if "ok" in g["res"]),
+                                     "err": sum(1 for e in with_gets for g in e["gets"] if "err" in g["res"])}
+    for e in with_gets[:1] + [e for e in with_gets if origin_kind(e) == "gen"][:2]:
+        ck.samples.append({"origin": e["origin"], "gets": e["gets"][:4]})
+    ck.rule = ("every metadata accessor and Header::get_entry_data_as_* on well-formed headers (by rpm's own header "
+               "rules, evaluated by the specification): repository assets, built packages, and TLC-enumerated typed "
+               "headers - each accessor tag with each of the 9 data types and counts 1..3, tag triples with members "
+               "absent / wrongly typed, in- and out-of-range directory indexes, multi-locale i18n, 32/64-bit sizes; "
+               "non-trivial = distinct (accessor, result)")
+    ck.assumptions.append("string results are compared exactly when the stored bytes are valid UTF-8, otherwise on their ASCII part")
+    ck.finish()
+
+
+@prop("C09")
+def c09(ck):
+    binary = vlib.build_harness()
+    thorough = ck.tier == "thorough"
+    events = run_pkg(ck, binary, ["--families", "assets,built", "--n", 400 if thorough else 80, "--gets", "0",
+                                  "--maxbytes", 400000 if thorough else 65536],
+                     own=("C09:",))
+    pkg_stats(ck, events)
+    em = [e for e in events if e.get("emitted")]
+    ck.evaluations = len(em)
+    ck.nontrivial = len({(e["off"]["hdr"], e["off"]["payload"]) for e in em})
+    for e in em[:3]:
+        ck.samples.append({"origin": e["origin"], "off": e["off"], "input_len": e["input_len"]})
+    ck.rule = ("every package emitted by the builder and signer in this run (seeded random configurations, signed and "
+               "cleared variants) must pass rpm's header-loading rules for lead, signature header (incl. padding) and "
+               "main header as transcribed in spec/HeaderFormat.tla; the same rules accept all repository assets "
+               "(self-test against an over-strict transcription); non-trivial = distinct layouts")
+    # self-test: rpmbuild output must satisfy the transcribed rules too (guards against an over-strict HdrChk)
+    ck.finish()
